@@ -126,7 +126,7 @@ theorem upChildArrive_kres (P : Params K) (hK : KParams lt P) (t : Nat) (s : St 
     exact List.mem_cons_of_mem _ (List.mem_flatMap.2 ⟨c, List.mem_of_getElem? hpk, self_mem_flat c⟩)
   have hoccC : NodeOcc P.order _ (shallow c) := hpre.order ▸ hok.occ _ hmemc
   have heven : P.order % 2 = 0 := hpre.order ▸ hok.even
-  have ho4 : 4 ≤ P.order := hpre.order ▸ hok.order4
+  have ho4 : 2 ≤ P.order := hpre.order ▸ hok.order2
   -- decompose the parent at the routing index
   have hlenp := hparp.1
   have hidxlt : index < p.kids.length := (List.getElem?_eq_some_iff.1 hpk).1
